@@ -1514,3 +1514,58 @@ func g33SpellableCastType(r *Repo, rep *Report) {
 			Msg: "derive.Fields spells the declared type of an unexported field of an imported struct without looking at whether that type is exported: for bytes.Buffer (lastRead readOp) the cast is *(*bytes.readOp)(unsafe.Pointer(…)), goderive exits 0 and the package does not compile (name readOp not exported by package bytes)"})
 	}
 }
+
+// g31NoPackageSkipped — (*program).Generate hands every initial package to generatePackage: on every path round the loop over
+// the loaded packages generatePackage is called for the current element. A package that is filtered out here (by its name, by the
+// age of its files, by what an earlier run left behind) keeps whatever derived.gen.go it had: the file is neither regenerated from
+// the current sources nor removed, and the run still exits 0. The directory of an external test package is the directory of
+// the package it tests; it owns that directory's derived file when the package itself has no files left.
+func g31NoPackageSkipped(r *Repo, rep *Report) {
+	fi := r.lookup("derive.(*program).Generate")
+	gp := r.lookup("derive.(*program).generatePackage")
+	if fi == nil || gp == nil {
+		rep.fail(Finding{Rule: "G31", Key: "G31|no-skip|missing", Kind: "undecided", Msg: "(*program).Generate / generatePackage not found"})
+		return
+	}
+	info := fi.Pkg.TypesInfo
+	g := newGraph(fi.Decl.Body, mayReturnFn(info))
+	loops := 0
+	ast.Inspect(fi.Decl.Body, func(n ast.Node) bool {
+		var body *ast.BlockStmt
+		switch x := n.(type) {
+		case *ast.RangeStmt:
+			body = x.Body
+		case *ast.ForStmt:
+			body = x.Body
+		default:
+			return true
+		}
+		if !nodeHas(body, func(k ast.Node) bool {
+			c, ok := k.(*ast.CallExpr)
+			return ok && callee(info, c) == gp.Fn
+		}) {
+			return true
+		}
+		loops++
+		found, ok := loopBodyMustPass(g, n.(ast.Stmt), body, func(b *cfg.Block) bool {
+			return blockHas(b, func(k ast.Node) bool {
+				c, ok := k.(*ast.CallExpr)
+				return ok && callee(info, c) == gp.Fn
+			})
+		})
+		switch {
+		case !found:
+			rep.fail(Finding{Rule: "G31", Key: "G31|no-skip|shape", Kind: "undecided", Where: []string{r.pos(n.Pos())}, Msg: "the loop over the initial packages has no body block in the control-flow graph"})
+		case !ok:
+			rep.fail(Finding{Rule: "G31", Key: "G31|package-skipped", Where: []string{r.pos(n.Pos())},
+				Msg: "(*program).Generate can go round the loop over the initial packages without calling generatePackage for the current one: a package that is skipped keeps the derived.gen.go of an earlier run (it is neither regenerated from the current sources nor deleted), and the run exits 0"})
+		default:
+			rep.pass("G31")
+			rep.sample(map[string]string{"rule": "G31 every initial package is generated", "loop": r.pos(n.Pos())})
+		}
+		return false
+	})
+	if loops == 0 {
+		rep.fail(Finding{Rule: "G31", Key: "G31|no-skip|floor", Kind: "undecided", Where: []string{r.pos(fi.Decl.Pos())}, Msg: "(*program).Generate has no loop that calls generatePackage (confirmed by hand)"})
+	}
+}
